@@ -27,7 +27,7 @@ func init() {
 	})
 	register(&Property{
 		ID: "C33",
-		Explanation: "Decides effects and order of repair index: (no-pack-removal) the call closure of repository.RepairIndex (static callees, function literals, function values, interface calls resolved by class-hierarchy analysis over the module; calls on backend.Backend are the effect boundary) contains neither PrunePlan.Execute nor RepairPacks — the only pack removers by rule pack-removers —, every removal call with a constant file type in the closure names IndexFile, and the only direct backend Remove in it is the removeUnpacked wrapper; (repair-order) rewriteIndexFiles is reachable from the pack-reading step only through createIndexFromPacks' success edge and after successful listings; in createIndexFromPacks a pack's entries enter the index (StorePack) only on the success edge of listPack for that pack with the entries just listed — unreadable packs are never indexed — and success requires the workers and the flush to succeed; (rewrite-order) obsolete index files are removed only after all new ones were saved; (reread-implies-removed) in the pack listing callback of RepairIndex every pack put into the to-read map is inserted into removePacks (the set whose entries Rewrite drops) with the same ID, both happen for packs unknown to the index and for size mismatches (specialised evaluation of the lookup result and the size comparison), and packs the index mentions but the listing lacks are inserted too — added after a seeded change that kept stale entries of size-mismatched packs. Not decided: that the listed positions equal the true positions (C06) for every pack content.",
+		Explanation: "Decides effects and order of repair index: (no-pack-removal) the call closure of repository.RepairIndex (static callees, function literals, function values, interface calls resolved by class-hierarchy analysis over the module; calls on backend.Backend are the effect boundary) contains neither PrunePlan.Execute nor RepairPacks — the only pack removers by rule pack-removers —, every removal call with a constant file type in the closure names IndexFile, and the only direct backend Remove in it is the removeUnpacked wrapper; (repair-order) rewriteIndexFiles is reachable from the pack-reading step only through createIndexFromPacks' success edge and after successful listings; in createIndexFromPacks a pack's entries enter the index (StorePack) only on the success edge of listPack for that pack with the entries just listed — unreadable packs are never indexed — and success requires the workers and the flush to succeed; (rewrite-order) obsolete index files are removed only after all new ones were saved; (reread-implies-removed) in the pack listing callback of RepairIndex every pack put into the to-read map is inserted into removePacks (the set whose entries Rewrite drops) with the same ID, both happen for packs unknown to the index and for size mismatches (specialised evaluation of the lookup result and the size comparison), and packs the index mentions but the listing lacks are inserted too — added after a seeded change that kept stale entries of size-mismatched packs; (kept-index-has-no-excluded-pack) MasterIndex.Rewrite leaves an index file unchanged only behind len(idx.Packs().Intersect(excludePacks)) == 0, otherwise the file is marked obsolete and its other entries are re-stored through the filtering iterator (added after a seeded change that dropped the test from the fast path for full index files). Not decided: that the listed positions equal the true positions (C06) for every pack content.",
 		Assumptions: commonAssumptions,
 		Technique:   "static analysis: call-graph effect closure (CHA within the module, backend interface as boundary) + CFG edge cuts (go/ssa)",
 		AllConfigs:  true,
@@ -36,10 +36,13 @@ func init() {
 			ruleRepairIndexOrder(c)
 			ruleRewriteOrder(c)
 			ruleRewriteDedupSet(c)
+			ruleKeptIndexHasNoExcludedPack(c)
 			rulePackRemovers(c)
 			ruleRereadImpliesRemoved(c)
 		},
 		Controls: []Control{
+			{Name: "full-index-kept-when-it-names-one-excluded-pack", File: "internal/repository/index/master_index.go",
+				Old: "			if len(task.idx.Packs().Intersect(excludePacks)) == 0 && Full(task.idx) && !Oversized(task.idx) {", New: "			if len(task.idx.Packs().Intersect(excludePacks)) <= 1 && Full(task.idx) && !Oversized(task.idx) {", Rule: "kept-index-has-no-excluded-pack"},
 			{Name: "size-mismatch-keeps-stale-entries", File: "internal/repository/repair_index.go",
 				Old: "			packSizeFromList[id] = packSize\n			removePacks.Insert(id)\n		}\n		if !ok {", New: "			packSizeFromList[id] = packSize\n		}\n		if !ok {\n			removePacks.Insert(id)", Rule: "reread-implies-removed"},
 			{Name: "repair-index-removes-mismatched-packs", File: "internal/repository/repair_index.go",
@@ -52,15 +55,18 @@ func init() {
 	})
 	register(&Property{
 		ID: "C34",
-		Explanation: "Decides ordering and effects of the repair commands: (salvage-order) RepairPacks removes exactly the user-named packs, only behind the success edges of the re-upload session (WithBlobUploader) and of rewriteIndexFiles, and the index rewrite only after the re-upload succeeded; reuploadBlobsFromPack stores with storeDuplicate=true, returns the save error and compares the uploaded id with the expected blob id; (repair-node-effects) the node rewriter of repair snapshots stores only to Node.Content and Node.Size and only behind node.Type == NodeTypeFile, so files whose data is fully available keep every other field; (replace-order, see C26) the repaired snapshot is saved before the original is removed. Not decided: that every readable blob is actually found in a damaged pack (depends on the damage), and that the repaired snapshots pass check.",
+		Explanation: "Decides ordering and effects of the repair commands: (salvage-order) RepairPacks removes exactly the user-named packs, only behind the success edges of the re-upload session (WithBlobUploader) and of rewriteIndexFiles, and the index rewrite only after the re-upload succeeded; reuploadBlobsFromPack stores with storeDuplicate=true, returns the save error and compares the uploaded id with the expected blob id; (second-salvage-pass) after the pass over the index entries of a pack the header-based pass is left out only if the header could not be read or slices.Equal finds both sorted lists equal in every field of every entry (added after a seeded change that compared only the blob handles, so that a wrong length in the index cost an intact blob); (repair-node-effects) the node rewriter of repair snapshots stores only to Node.Content and Node.Size and only behind node.Type == NodeTypeFile, so files whose data is fully available keep every other field; (replace-order, see C26) the repaired snapshot is saved before the original is removed. Not decided: that every readable blob is actually found in a damaged pack (depends on the damage), and that the repaired snapshots pass check.",
 		Assumptions: commonAssumptions,
 		Technique:   "static analysis: CFG edge-cut ordering + field-store effect enumeration in the rewrite callback (go/ssa)",
 		Run: func(c *eng.Ctx) {
 			ruleSalvageOrder(c)
+			ruleSecondSalvagePass(c)
 			ruleRepairSnapshotsEffects(c)
 			rulePackRemovers(c)
 		},
 		Controls: []Control{
+			{Name: "header-pass-only-when-entry-count-differs", File: "internal/repository/repair_pack.go",
+				Old: "			if packBlobs != nil && !slices.Equal(indexBlobs, packBlobs) {", New: "			if packBlobs != nil && len(indexBlobs) != len(packBlobs) && !slices.Equal(indexBlobs, packBlobs) {", Rule: "second-salvage-pass"},
 			{Name: "remove-damaged-packs-before-reupload", File: "internal/repository/repair_pack.go",
 				Old: "	if err != nil {\n		return err\n	}\n	bar.Done()\n\n	// remove salvaged packs from index", New: "	if err != nil {\n		printer.E(\"salvaging failed: %v\", err)\n	}\n	bar.Done()\n\n	// remove salvaged packs from index", Rule: "salvage-order"},
 			{Name: "salvage-skips-known-blobs", File: "internal/repository/repair_pack.go",
@@ -79,6 +85,7 @@ func init() {
 			ruleExecuteOrder(c)
 			ruleRewriteOrder(c)
 			ruleRewriteDedupSet(c)
+			ruleKeptIndexHasNoExcludedPack(c)
 			ruleUsedBlobsErrors(c, false)
 			ruleMissingAbort(c)
 			ruleIgnoredErrors(c)
